@@ -82,8 +82,8 @@ type bitEval struct {
 	load func(ssa.Value) (bits, bool) // loads of b[k]
 	// byteAt: the k-th byte of the slice value base (for binary.BigEndian.UintN(base))
 	byteAt func(base ssa.Value, k int) (bits, bool)
-	memo map[ssa.Value]bits
-	err  string
+	memo   map[ssa.Value]bits
+	err    string
 }
 
 func typeWidth(t types.Type) int {
